@@ -409,6 +409,8 @@ pub struct Layout {
     pub indent: &'static str,
     /// statements separated by a single space instead of a newline
     pub one_line: bool,
+    /// a separator (`,`) after the last operand of every statement that has operands
+    pub trailing_sep: bool,
 }
 
 impl Layout {
@@ -422,6 +424,7 @@ impl Layout {
         end: 0,
         indent: "",
         one_line: false,
+        trailing_sep: false,
     };
 }
 
@@ -563,8 +566,12 @@ pub fn print(p: &Program, lay: &Layout) -> Printed {
                     text.push_str(lay.indent);
                 }
                 let start = text.len();
-                text.push_str(&stmt_text(stmt, lay));
+                let st = stmt_text(stmt, lay);
+                text.push_str(&st);
                 spans.push((i, start, text.len()));
+                if lay.trailing_sep && st.contains(' ') {
+                    text.push(',');
+                }
             }
         }
         if lay.comment == 1 && !lay.one_line {
